@@ -763,7 +763,9 @@ func (h *c16eH2) do(method, path, authority string, hdrs [][2]string, body []byt
 	if err != nil {
 		return "", err
 	}
-	if body != nil {
+	// A header block with an invalid field value never opens the stream (it is
+	// reset); DATA sent for it would be a connection error of THIS client.
+	if body != nil && httpguts.ValidHeaderFieldValue(path) && httpguts.ValidHeaderFieldValue(authority) {
 		if err = h.fr.WriteData(id, true, body); err != nil {
 			return "", err
 		}
@@ -905,6 +907,8 @@ func c16eRun(f []string) []string {
 		for i := range names {
 			names[i] = vutil.Unhex(f[4+i])
 		}
+		// f[5+n] is urlStrictColons: a fact about this binary (GODEBUG), an
+		// input of the model only
 		c16eReset(vutil.Unhex(f[1]), vutil.UnB(f[2]), names, vutil.UnB(f[4+n]))
 
 		return []string{"reset"}
@@ -920,15 +924,26 @@ func c16eRun(f []string) []string {
 		panic("unknown op " + f[0])
 	}
 
-	// proto slot peer sni sniValid method target host splitOk splitHost dnsOK edns qname nhdr (k v)*
+	// proto slot peer sni sniValid method target host splitOk splitHost dnsOK ipLitOK edns qname nhdr (k v)*
 	r := &c16eReq{
 		proto: f[1], slot: f[2], peer: vutil.Unhex(f[3]), sni: vutil.Unhex(f[4]), method: f[6],
 		target: vutil.Unhex(f[7]), host: vutil.Unhex(f[8]), dnsOK: vutil.UnB(f[11]),
-		edns: vutil.Unhex(f[12]), qname: vutil.Unhex(f[13]),
+		edns: vutil.Unhex(f[13]), qname: vutil.Unhex(f[14]),
 	}
-	nh := vutil.Atoi(f[14])
+	nh := vutil.Atoi(f[15])
 	for i := 0; i < nh; i++ {
-		r.hdrs = append(r.hdrs, [2]string{vutil.Unhex(f[15+2*i]), vutil.Unhex(f[16+2*i])})
+		r.hdrs = append(r.hdrs, [2]string{vutil.Unhex(f[16+2*i]), vutil.Unhex(f[17+2*i])})
+	}
+	// The input grammar: one request per line.  A CR or LF inside the Host
+	// value, or an ill-formed extra header, would be a different sequence of
+	// header lines, not this request.
+	if strings.ContainsAny(r.host, "\r\n") {
+		panic("C16E.q: CR/LF in the Host value is outside the input grammar")
+	}
+	for _, h := range r.hdrs {
+		if !httpguts.ValidHeaderFieldName(h[0]) || !httpguts.ValidHeaderFieldValue(h[1]) {
+			panic("C16E.q: ill-formed extra header is outside the input grammar")
+		}
 	}
 
 	e := c16e
@@ -1036,7 +1051,7 @@ func c16eGenTarget(r *rand.Rand, method, proto string) string {
 		mode = 0
 	}
 	raw := c16eEncodePath(r, path, mode)
-	switch r.IntN(40) {
+	switch r.IntN(44) {
 	case 0:
 		raw += "%zz"
 	case 1:
@@ -1051,14 +1066,13 @@ func c16eGenTarget(r *rand.Rand, method, proto string) string {
 		raw = "foo:bar" + raw
 	case 6:
 		raw = "http:" + raw
-	case 7, 8, 9:
-		// absolute-form; the authority stays inside host[:port] (the model's
-		// simpleAuthority), so the path must not run into it
-		if !strings.HasPrefix(raw, "/") {
+	case 7, 8, 9, 10, 11, 12, 13:
+		// absolute-form: scheme "://" authority path.  Without a leading slash
+		// the first path segment runs into the authority.
+		if r.IntN(6) > 0 && !strings.HasPrefix(raw, "/") {
 			raw = "/" + raw
 		}
-		raw = vutil.Pick(r, []string{"http", "https", "HTTP", "a+b-c.d"}) + "://" +
-			vutil.Pick(r, []string{"evil.example", "victim.example.org", "victim.example.org:8443", "", "example.org:", "h"}) + raw
+		raw = vutil.Pick(r, []string{"http", "https", "HTTP", "a+b-c.d", "Https"}) + "://" + c16eGenAuthority(r) + raw
 	}
 	if raw == "*" {
 		return raw
@@ -1071,6 +1085,57 @@ func c16eGenTarget(r *rand.Rand, method, proto string) string {
 	default:
 		return raw + "?" + vutil.Pick(r, c16eQueries)
 	}
+}
+
+// c16eStrictColons probes GODEBUG urlstrictcolons of this binary.
+func c16eStrictColons() bool {
+	_, err := url.Parse("http://a:1:2/")
+
+	return err != nil
+}
+
+var c16eAuthorities = []string{
+	"evil.example", "victim.example.org", "victim.example.org:8443", "", "example.org:", "h", "h:x", "h:", ":", ":80", ":x",
+	"%ff", "%80", "%7f", "%25", "%41", "%zz", "%4", "caf%C3%A9.example.org", "caf\xc3\xa9.example", "a%2Fb", "%e2%84%aaid.example.org",
+	"user@victim.example.org", "user:pw@victim.example.org", "u%41:p%zz@h", "u%zz@h", "a@b@victim.example.org", "us\xc3\xa9r@h", "user@", "@h", "u<@h",
+	"[::1]", "[::1]:443", "[::1]:x", "[::1%25eth0]", "[fe80::1%25en%41]", "[fe80::1%25e%20n]", "[fe80::1%25e%2fn]", "[::1%zz]", "[1.2.3.4]", "[::ffff:1.2.3.4]",
+	"[::1", "::1]", "a[::1]", "[::g]", "[%3a%3a1]", "[::1]%41", "[]",
+	"a:1:2", "a:b:2", "a:1:b", "a b", "a\"b", "a<b>", "a_b", "A.B", "-", "a!$&'()*+,;=b", "a|b", "a^b", "a{b}", "a\\b", "a`b", "a#b",
+}
+
+func c16eGenAuthority(r *rand.Rand) string {
+	a := vutil.Pick(r, c16eAuthorities)
+	if r.IntN(5) == 0 {
+		a = vutil.Pick(r, []string{"user@", "u:p@", "%41@", ""}) + a + vutil.Pick(r, []string{"", ":53", ":", ":x"})
+	}
+
+	return a
+}
+
+// c16eIPLitOK is the oracle for a bracketed host in an absolute-form target:
+// netip.ParseAddr accepts its unescaped content and it is not an IPv4 address.
+// It is true when the target has no such host (the model does not ask then).
+func c16eIPLitOK(target string) bool {
+	i := strings.Index(target, "://")
+	if i < 0 {
+		return true
+	}
+	rest, _, _ := strings.Cut(target[i+3:], "?")
+	auth, _, _ := strings.Cut(rest, "/")
+	if j := strings.LastIndex(auth, "@"); j >= 0 {
+		auth = auth[j+1:]
+	}
+	cb := strings.LastIndex(auth, "]")
+	if !strings.HasPrefix(auth, "[") || cb < 0 {
+		return true
+	}
+	content, err := url.PathUnescape(auth[1:cb])
+	if err != nil {
+		return true
+	}
+	addr, err := netip.ParseAddr(content)
+
+	return err == nil && !addr.Is4()
 }
 
 // c16eOracles parses the request the way net/http will, for the two values the
@@ -1109,7 +1174,10 @@ func c16eGenHost(r *rand.Rand, srv, sni string) string {
 		default:
 			h = sni
 		}
-		if httpguts.ValidHostHeader(h) && !strings.ContainsAny(h, " \t") {
+		// mostly values net/http accepts as a Host; sometimes not (400 over
+		// HTTP/1.x, stream reset over h2 for control bytes).  Leading/trailing
+		// blanks would be trimmed by the header parser, CR/LF split the line.
+		if httpguts.ValidHostHeader(h) || r.IntN(6) == 0 && h == strings.TrimSpace(h) && !strings.ContainsAny(h, "\r\n") {
 			return h
 		}
 	}
@@ -1150,7 +1218,7 @@ func c16eGen(r *rand.Rand, emit vutil.Emit) {
 		for _, nm := range names {
 			f = append(f, vutil.Hex(nm))
 		}
-		emit(append(f, vutil.B(r.IntN(2) == 0))...)
+		emit(append(f, vutil.B(r.IntN(2) == 0), vutil.B(c16eStrictColons()))...)
 
 		steps := 15 + r.IntN(35)
 		reconfAt := -1
@@ -1211,7 +1279,7 @@ func c16eGen(r *rand.Rand, emit vutil.Emit) {
 			}
 			sniValid := netutil.IsValidHostname(sni) || netutil.IsValidIPString(sni)
 			f = []string{"C16E.q", proto, slot, vutil.Hex(peer), vutil.Hex(sni), vutil.B(sniValid), method, vutil.Hex(target),
-				vutil.Hex(host), vutil.B(splitOK), vutil.Hex(hostSplit), vutil.B(dnsOK), vutil.Hex(edns),
+				vutil.Hex(host), vutil.B(splitOK), vutil.Hex(hostSplit), vutil.B(dnsOK), vutil.B(c16eIPLitOK(target)), vutil.Hex(edns),
 				vutil.Hex(fmt.Sprintf("q%d.c16.example.", i))}
 			nh := 0
 			if target != "" {
